@@ -708,9 +708,10 @@ Proof.
   assert (Hsm : stream_key c <> meta_key false c) by (apply (K_sm _ _ HK); assumption).
   destruct (sfind c (m_streams ms)) as [s|] eqn:Es.
   - destruct Hrel as [Hm Hs]. apply meta_rel_hash in Hm as (h & x & Hg & Hh).
-    exists (clear_outbox rs), h, x. split; [|repeat split; try assumption].
-    + destruct Hh as (He & _). apply (cur_epoch_some _ _ _ _ _ _ Hg He).
-    + apply (R_inv _ _ _ _ HR c). assumption.
+    exists (clear_outbox rs), h, x.
+    split; [destruct Hh as (He & _); apply (cur_epoch_some (meta_key false c) nonce (clear_outbox rs) h x _ Hg He)|].
+    split; [exact Hg|]. split; [exact Hh|]. split; [exact Hs|]. split; [reflexivity|].
+    split; [reflexivity|]. split; [reflexivity|]. apply (R_inv _ _ _ _ HR c). assumption.
   - destruct Hrel as [Hm Hs].
     exists (setval (clear_outbox rs) (meta_key false c) (VHash [("e", nonce)])), [("e", nonce)], None.
     split; [apply cur_epoch_none; assumption|].
@@ -720,3 +721,47 @@ Proof.
     split; [intros k Hk; rewrite getk_setval_other by assumption; reflexivity|].
     split; [reflexivity|]. split; [reflexivity|]. apply stream_inv_new. assumption.
 Qed.
+
+(* ================= idempotency bookkeeping ================= *)
+Definition rzo_of (o : popts) : option Z :=
+  if String.eqb (po_idem o) "" then None
+  else Some (if (po_idem_ttl o =? 0)%Z then default_idem_ttl else po_idem_ttl o).
+
+Lemma result_expire_rzo o : result_expire o = match rzo_of o with Some rz => itoa rz | None => "" end.
+Proof. unfold result_expire, rzo_of. destruct (String.eqb (po_idem o) ""); [reflexivity|]. destruct (po_idem_ttl o =? 0)%Z; reflexivity. Qed.
+
+Lemma rzo_range o rz : small (po_idem_ttl o) = true -> rzo_of o = Some rz -> (0 < rz < 2147483648)%Z.
+Proof.
+  intros Hs. apply small_range in Hs. unfold rzo_of. destruct (String.eqb (po_idem o) ""); [discriminate|].
+  destruct (po_idem_ttl o =? 0)%Z eqn:E; intros X; injection X as <-; [unfold default_idem_ttl; lia|].
+  apply Z.eqb_neq in E. lia.
+Qed.
+
+Lemma cache_save_none m c o pos : po_idem o = "" -> cache_save m c o pos = m.
+Proof. intros H. unfold cache_save. rewrite H. reflexivity. Qed.
+
+Lemma cache_get_save_same m c o pos rz :
+  m_now m = 0%N -> rzo_of o = Some rz -> (0 < rz)%Z ->
+  cache_get (cache_save m c o pos) c (po_idem o) = Some pos.
+Proof.
+  intros Hn Hr Hrz. unfold rzo_of in Hr. unfold cache_save, cache_get.
+  destruct (String.eqb (po_idem o) "") eqn:E; [discriminate|]. injection Hr as Hr.
+  cbn [m_cache m_now]. rewrite sfind_sput_same. rewrite Hn. rewrite Hr.
+  replace (Z.to_N (Z.of_N 0 + rz * 1000) <=? 0)%N with false by (symmetry; apply N.leb_gt; lia).
+  destruct pos; reflexivity.
+Qed.
+
+Lemma cache_get_save_other m c o pos ch' k' :
+  cache_key ch' k' <> cache_key c (po_idem o) -> cache_get (cache_save m c o pos) ch' k' = cache_get m ch' k'.
+Proof.
+  intros Hne. unfold cache_save, cache_get. destruct (String.eqb (po_idem o) ""); [reflexivity|].
+  cbn [m_cache m_now]. rewrite sfind_sput_other by assumption. reflexivity.
+Qed.
+
+Lemma publish_args_eq cfg c data o nonce :
+  c_lists cfg = false ->
+  publish_args cfg c data o nonce =
+    [marshal data false; itoa (po_size o); itoa (po_ttl o); message_channel c;
+     itoa (meta_ttl_of cfg (po_meta_ttl o)); nonce; "publish"; result_expire o;
+     if po_delta o then "1" else ""; vstr (po_version o); po_vepoch o].
+Proof. intros H. unfold publish_args. rewrite H. reflexivity. Qed.
